@@ -32,6 +32,12 @@ def spell(f, i, tgts, pat, form):
             return "@ROOT@/" + NAMES[g]
         if form == 2:
             return "~/@HOMEREL@/" + NAMES[g]
+        if form == 3:
+            return "@ROOT@/./" + NAMES[g]          # the same file under a spelling that is not the shortest one
+        if form == 4:
+            return "@ROOT@/sub/../" + NAMES[g]
+        if form == 5:
+            return "./" + rel_path(f, g)
         return rel_path(f, g)
     if pat == "same":
         return "*.journal"
